@@ -98,8 +98,23 @@ claim(
     "DESIGN.md §7 C18",
 )
 
+claim(
+    "C13",
+    "Lean 4 proof (exactness of the visitor w.r.t. an inductive reachability relation; rejection iff conflict; permutation invariance; bridge to C03_interleave) + differential correspondence with the used-qubit visitor, DiscoverSubcircuits and the emulator",
+    "Theorems C13_exact(_stmt), C13_fuel_irrelevant, C13_leaf_*, C13_busy, C13_idle, C13_reject, C13_order_used, C13_order_accept, C13_indep_of_disjoint, C13_order_state prove for every circuit and sub-statement that the analysis returns exactly the qubits some reachable gate acts on (through blocks, loops, macro calls with arguments evaluated in the caller's scope, aliases and lets; busy gates = all, idle gates = none), that the emulator's check rejects exactly when two branches of a reachable parallel block (or two arguments of one gate) act on a common qubit, that permuting branches changes neither the used sets nor acceptance, and — through C03_interleave — that the state does not depend on branch order.",
+    COMMON_NOTE + "Exactness against the meaning specification (C13_exact_full) is a named proposition, proved only modulo the resolve-vs-spec bridge (C13_exact_partial); the oracle used_exact_pipeline checks it on the real code. Branch-permutation theorems cover body blocks only.",
+    "DESIGN.md §7 C13",
+)
+claim(
+    "C17",
+    "Lean 4 proof (the three front ends' S-expressions coincide up to builder-irrelevant spellings; build(norm e) = build e; namer freshness by pigeonhole) + three-way differential correspondence with the real Q-syntax, CircuitBuilder and parser",
+    "Theorems C17_same, C17_q_accepts, C17_text_defined, C17_wrap(_spec), C17_fresh, C17_subcircuit_none_argument (and C17_build_norm / C17_build_front_ends in Props/C17Build.lean) prove for every program of the common type that the builder API and the parser hand `build` the same S-expression, that Q-syntax hands it the S-expression of the program wrapped in prepare_all/measure_all exactly when the body does not begin with a prepare or a subcircuit, that `build` cannot distinguish the remaining spellings, and that generated names are pairwise distinct and disjoint from all user names of both kinds (for all user name lists, including __c0/__r3-style names).",
+    COMMON_NOTE + "The front-end models are S-expression producers; that rejections are JaqalErrors and that all three front ends reject the same programs are correspondence-level facts.",
+    "DESIGN.md §7 C17",
+)
+
 ALL = [f"C{n:02d}" for n in range(1, 21)]
-READY = {"C02", "C03", "C04", "C08", "C09", "C11", "C12", "C15", "C18", "C19"}  # checks that are built, pass on the unchanged tree and are registered
+READY = {"C02", "C03", "C04", "C08", "C09", "C11", "C12", "C13", "C15", "C17", "C18", "C19"}  # checks that are built, pass on the unchanged tree and are registered
 
 
 def main():
